@@ -268,10 +268,10 @@ func (rn *runner) corpus() error {
 		rn.out.Hit("source:corpus")
 		switch {
 		case !o.OK():
-			rn.out.Add(res.Finding{Kind: "crash", Op: "crash:corpus", Input: c.CSS, Reason: "regression of " + c.Fixed + ": panic/timeout: " + o.Panic, Key: c.Name})
+			rn.out.Add(res.Finding{Kind: "crash", Op: "crash:corpus", Input: c.CSS, Reason: "corpus case " + c.Name + " (" + c.Fixed + "): panic/timeout: " + o.Panic, Key: c.Name})
 		case impl.String() != c.Expected:
 			rn.out.Add(res.Finding{Kind: "judge", Op: "judge:corpus", Input: c.CSS, Impl: impl.String(), Model: c.Expected,
-				Reason: "regression of " + c.Fixed + ": the token tree differs from the one css-syntax-3 prescribes", Key: c.Name})
+				Reason: "corpus case " + c.Name + " (" + c.Fixed + "): the output differs from the one css-syntax-3 prescribes (stored expectation)", Key: c.Name})
 		}
 		// the model must agree with the stored expectation too
 		ans, err := rn.m.Ask(request(*e, 0, c.SkipComments, false, c.CSS))
